@@ -170,7 +170,9 @@ def _selectors(p):
 def stream_cases(draw, name, tier):
     hi = 400 if tier == "quick" else 2000
     return {"tool": name, "length": draw(st.integers(50, hi)), "nsrc": draw(st.integers(1, 3)),
-            "k": draw(st.integers(1, 6)), "flag": draw(st.booleans()),
+            "k": draw(st.integers(1, 6) if name not in ("batched", "nlargest", "nsmallest")
+                      else st.one_of(st.integers(1, 6), st.integers(7, 40))),
+            "flag": draw(st.booleans()),
             "src": draw(st.sampled_from(["agen", "aclass", "iter"])),
             "keys": draw(st.sampled_from(["inc", "const", "mod"]))}
 
